@@ -78,9 +78,16 @@ def make_spec(rng, version=None, size="small"):
         t = base + rng.randint(0, 50)
         ts = []
         step = rng.choice([1, 7, 1000, 10**6])
-        for _ in range(n):
+        mode = rng.randint(0, 3)
+        for j in range(n):
             ts.append(t)
-            t += rng.choice([step, step, step + rng.randint(0, step)])
+            if mode == 0:
+                t += step  # regular
+            elif mode == 1 and step >= 2:
+                # irregular, but the mean step equals the first one (a late sample followed by one back on the grid)
+                t += step + (0 if j % 3 == 0 else (step // 2 if j % 3 == 1 else -(step // 2)))
+            else:
+                t += rng.choice([step, step, step + rng.randint(0, step)])
         chans.append({"group": "Force LF", "name": nm, "kind": "ts", "ts": ts})
     if rng.chance(0.5):
         n = rng.randint(1, nmax)
